@@ -150,7 +150,7 @@ def enumerate_cases(tier: str, seed: int) -> list[dict[str, Any]]:
             c["timeout"] = 900
         cases.append(c)
     for name in list(_sentinels()) + ["onnx_function_body"]:
-        for mode in ("single", "double"):
+        for mode in ("single", "double", "single_x64_preenabled"):
             cases.append({"key": f"sent:{name}@{mode}", "src": "sentinel", "name": name, "mode": mode, "cost": 0.5})
     for init in (False, True):
         for dp in (False, True):
@@ -319,6 +319,11 @@ def run_case(case: dict[str, Any], tier: str, seed: int) -> dict[str, Any]:
             mk_export = mk_ref = lambda: f
         dp = mode == "double"
         dt = np.float64 if dp else np.float32
+        if mode == "single_x64_preenabled":
+            import jax as _j
+
+            _j.config.update("jax_enable_x64", True)
+            x64_before = True
 
         class _P(programs.Program):
             pass
@@ -360,6 +365,11 @@ def run_case(case: dict[str, Any], tier: str, seed: int) -> dict[str, Any]:
             if "sample" in r2:
                 rec["sample"] = r2["sample"]
     x64_after = bool(jax.config.jax_enable_x64)
+    if case.get("mode") == "single_x64_preenabled":
+        jax.config.update("jax_enable_x64", False)
+        if x64_after is not True:
+            rec["violations"].append({"family": "x64_flag", "kind": "flag_changed", "cls": "x64_preenabled", "text": f"{case['key']}: jax_enable_x64 was True before the single-precision export and is {x64_after} after it"})
+        x64_after = x64_before = False
     if x64_after != x64_before:
         rec["violations"].append({"family": "x64_flag", "kind": "flag_changed", "cls": "during_corpus", "text": f"{case['key']}: jax_enable_x64 {x64_before} -> {x64_after}"})
         jax.config.update("jax_enable_x64", x64_before)
